@@ -100,6 +100,25 @@ def structured_family():
                 if suf == "E":
                     keep.append(rules[4])
                 out.append(("list_%s_pre_%s_suf_%s" % (ln, pn, sn), G.G("; ".join(keep))))
+    # state splitting (LALR_PAGER / LALR_RN): ONE kernel {N1: .. e ., N2: .. e .} reached in three
+    # left contexts (at the start, after b, after g) with the follow pair (s, t) of (N1, N2)
+    # chosen per context: the second context is incompatible with the first (merging them would
+    # give a reduce/reduce conflict, so the state is split), the third runs over all pairs
+    # (compatible with one copy, both or none).  LR(1) by construction unless s = t is forced.
+    pool = ["Ta", "Tc", "Tf", "Tp"]
+    pairs = [(x, y) for x in pool for y in pool if x != y]
+    first = ("Ta", "Tc")
+    second = [pr for pr in pairs if pr[0] == first[1] or pr[1] == first[0]]
+    for depth, body in ((1, "Te"), (2, "Td Te")):
+        for i2, c2 in enumerate(second):
+            for i3, c3 in enumerate(pairs):
+                ctxs = [("", first), ("Tb ", c2), ("Tg ", c3)]
+                alts = []
+                for pre, (s_, t_) in ctxs:
+                    alts.append("%sN1 %s" % (pre, s_))
+                    alts.append("%sN2 %s" % (pre, t_))
+                out.append(("merge3_d%d_%d_%d" % (depth, i2, i3),
+                            G.G("S: %s; N1: %s; N2: %s" % (" | ".join(alts), body, body))))
     return out
 
 
@@ -924,6 +943,11 @@ def pipeline_docs(tier, seed):
         "aug_ref_opt_sep": "S: Tc AUG?[Ta] S | Tc;\nterminals\nTa: 'a';\nTc: 'c';\n",
         "augl_ref": "S: Ta AUGL?;\nterminals\nTa: 'a';\n",
         "empty_ref_plus": "S: Ta EMPTY+;\nterminals\nTa: 'a';\n",
+        # terminals without a recogniser that the start rule does not reach
+        "norec_unused": "S: Ta;\nterminals\nTa: 'a';\nSpare: ;\n",
+        "norec_unreachable_rule": "S: Ta;\nU: Spare Ta;\nterminals\nTa: 'a';\nSpare: ;\n",
+        "norec_layout_only": "S: Ta;\nLayout: Ws*;\nterminals\nTa: 'a';\nWs: ;\n",
+        "norec_used_and_unused": "S: Ta Tb;\nterminals\nTa: 'a';\nTb: ;\nSpare: ;\n",
         "assign_empty": "S: x=EMPTY Ta | Tb;\nterminals\nTa: 'a';\nTb: 'b';\n",
         "bool_assign_empty": "S: x?=EMPTY | Ta S;\nterminals\nTa: 'a';\n",
         # production kinds that are not Rust identifiers
@@ -1224,6 +1248,13 @@ def stage_regen(work, tier, seed):
         for it in (fns if tier == "thorough" else rng.sample(fns, min(3, len(fns)))):
             other = rng.choice(its)
             hists.append([{"op": "edit", "name": it[1]}, {"op": "delete", "names": [list(other)]}, gen, gen])
+        # edits that change how an item LOOKS (generic parameters, attributes, doc comments,
+        # visibility, an alias turned into a newtype) but not its name
+        hows = ["generic", "attr", "doc", "vis", "newtype", "body"]
+        names_ = sorted({x[1] for x in its})
+        for k, nm_ in enumerate(names_ if tier == "thorough" or not extra else rng.sample(names_, min(3, len(names_)))):
+            for how in (hows if tier == "thorough" else [hows[(k + len(g)) % len(hows)], hows[(k + 1 + len(g)) % len(hows)]]):
+                hists.append([{"op": "edit", "name": nm_, "how": how}, gen, gen])
         for k in range((1 if extra else 3) if tier == "quick" else 12):
             steps = []
             for _ in range(rng.randint(2, 4)):
@@ -1694,6 +1725,11 @@ def stage_codegen(work, tier, seed):
     rnd = [c for c in cor if "random" in c[2]]
     ng = 14 if tier == "quick" else 90
     chosen = rng.sample(cur, min(ng // 2, len(cur))) + rng.sample(rnd, min(ng - ng // 2, len(rnd)))
+    # always: shapes whose right-nulled tables have cells with several reductions, also of ONE
+    # production at different lengths (self-overlapping right-nullable productions)
+    always = ("cur:unbounded_amb_eps", "cur:eps_amb", "cur:all_nullable", "cur:rr_two_null", "cur:rr_three_null",
+              "cur:right_null_prefix", "cur:self_overlap_rn", "cur:expr_amb")
+    chosen += [c for c in cor if c[0] in always and c not in chosen]
     # lexically ambiguous grammars exercise the lexical-strategy flags of the definition
     lexg = [("lexamb:%d" % i, g, {"lex"}) for i, (gid, g) in enumerate(lex_sets(seed, 3 if tier == "quick" else 12))]
     cases = []
@@ -1866,10 +1902,13 @@ def stage_ast(work, tier, seed):
               dict(algo="lr", fancy=True), dict(algo="glr", builder="generic"), dict(algo="lr", builder="generic", gen="arrays"),
               dict(algo="lr", builder="custom"), dict(algo="glr", builder="custom"),
               dict(algo="lr", lexer="custom"), dict(algo="glr", lexer="custom", loc_info=True)]
+    all_combos = combos
     if tier == "quick":
         combos = combos[:5] + combos[7:8] + combos[9:10] + combos[11:12]
     for name, text, inputs, nones in AST_SHAPES:
-        shape_combos = combos
+        # every settings combination on a few representative shapes (only string terminals,
+        # strings and regexes, a Layout rule, optional parts), the reduced list elsewhere
+        shape_combos = all_combos if name in ("all_const", "calc", "layout", "optional", "kw_str_terms") else combos
         if name == "regex_empty_match":
             shape_combos = combos[:2] + [dict(algo="lr", lm=False), dict(algo="glr", lm=False)]
         for ci, st in enumerate(shape_combos):
